@@ -52,7 +52,7 @@ m = {
     }],
     "checks": checks,
     "not_applicable": not_app,
-    "notes": "Exit codes of check: 0 held (known findings printed as KNOWN-FINDING), 1 violation (VIOLATION line, natively replayed), 2 inconclusive/incomplete/engine error (never a pass).",
+    "notes": "Exit codes of check: 0 held on everything explored (known findings printed as KNOWN-FINDING), 1 violation (VIOLATION line, natively replayed), 2 inconclusive / engine error / solver unknown / vacuous harness (never a pass). Quick tier: every entry must finish within its bounds, an unfinished entry is exit 2. Thorough tier: an entry that exhausts its time or path budget prints BUDGET-EXHAUSTED, the evidence file records exhaustive=false with the reason, and the run still exits 0 if nothing explored violated the property.",
 }
 json.dump(m, open(f'{V}/MANIFEST.json', 'w'), indent=1)
 print("claimed:", sorted(claimed), "not_applicable:", len(not_app))
